@@ -134,6 +134,28 @@ func runC09(c *Check, a *Analysis) {
 			}
 			c.Ob("R-ACK-ONCE", sc.key(fn, "ack branch advances phase"), p.InstrPos(s.Instr), !bad, det)
 		}
+		// the acknowledgement wrapped in a closure that is handed on (to a queue) instead of run
+		// by the reader: whatever it does, it does it after the reader went on to the next frame
+		eachInstrLocal(fn, func(in ssa.Instruction) {
+			mc, ok := in.(*ssa.MakeClosure)
+			if !ok {
+				return
+			}
+			cl, ok := mc.Fn.(*ssa.Function)
+			if !ok || p.isPlainHelper(cl) {
+				return
+			}
+			if g, _ := p.guardedBy(in, m); !g {
+				return
+			}
+			for _, s := range comp.sitesIn(cl) {
+				if s.What != "done()" {
+					continue
+				}
+				na++
+				c.Ob("R-ACK-ONCE", sc.key(fn, "ack branch signals in the reader"), p.InstrPos(s.Instr), false, "the open acknowledgement is signalled (and the stream phase advanced) by a closure handed on at "+p.At(in)+" instead of by the reader itself: the reader decodes the next response on this sequence number while the phase still says `opening`, takes it for another acknowledgement and drops the message")
+			}
+		})
 	}
 	if na == 0 {
 		c.Undecided("R-ACK-ONCE", "no acknowledgement branch (done() guarded by Stream == openStream) found in the response reader")
